@@ -90,7 +90,8 @@ def gen_case(rng, tier, kind=None, N=None):
     variances = sig6(rs.uniform(0.5, 2.0, size=(c, d)) * scale * scale)
     weights = gen_simplex(rng, c)
     nc = rng.randint(2, 4)
-    N = N or rng.randint(nc, 14 if tier == "thorough" else 10)
+    N = N or (rng.randint(nc, 14 if tier == "thorough" else 10) if rng.random() < 0.93
+              else rng.randint(15, 40))
     nc = min(nc, N)
     y = list(range(nc)) + [rng.randrange(nc) for _ in range(N - nc)]
     if rng.random() < 0.8:
@@ -107,6 +108,8 @@ def gen_case(rng, tier, kind=None, N=None):
                 "dim_t": rng.randint(1, 3), "update_sigma": rng.random() < 0.6,
                 "floor": rng.choice([1e-10, 1e-3 * scale * scale])},
         "np_seed": rng.randint(0, 2 ** 31 - 1),
+        # a long-lived machine object: used (enrolment) or trained before this training
+        "pre": rng.choice([None, None, None, "enroll", "fit"]),
         "sched": gen_sched(rng),
         "xmodes": rng.random() < 0.5,
     }
@@ -131,6 +134,23 @@ def fixed_cases(tier):
                     cs["sched"] = {"mode": mode, "policy": "random", "workers": 3,
                                    "stall_p": 0.5, "seed": rng.getrandbits(32)}
                     out.append(cs)
+    # many statistics / partitions around powers of two
+    counts = [15, 17, 31, 33, 65] if tier == "quick" else [15, 16, 17, 31, 32, 33, 63, 64, 65, 100, 129]
+    for kind in KINDS:
+        for N in counts:
+            if kind != "ivector" and N > 70:
+                continue
+            r2 = random.Random(f"fixed12many/{kind}/{N}")
+            base = gen_case(r2, "quick", kind=kind, N=N)
+            base["cfg"]["it"] = 1 if kind != "ivector" else 2
+            base["pre"] = None
+            base["xmodes"] = False
+            for k in sorted({N, N - 1, (N + 1) // 2}):
+                cs = dict(base)
+                cs["layout"] = {"type": "from_sequence", "npartitions": k}
+                cs["sched"] = {"mode": r2.choice(list(MODES)), "policy": "random", "workers": 3,
+                               "stall_p": 0.5, "seed": r2.getrandbits(32)}
+                out.append(cs)
     return out
 
 
@@ -218,10 +238,26 @@ def _labels(case, for_bag):
     return np.array(y)
 
 
+def _pre(case, m, stats, bag_mode):
+    """Earlier life of the machine object: enrolment with its initial U/V/D, or a first
+    training (through the same kind of container) on the statistics in reverse order."""
+    pre = case.get("pre")
+    if pre == "enroll" and case["kind"] != "ivector":
+        m.enroll(stats[:2])
+    elif pre == "fit":
+        rev = stats[::-1]
+        if case["kind"] == "ivector":
+            m.fit(db.from_sequence(rev, npartitions=2) if bag_mode else rev)
+        else:
+            yr = np.array(case["y"][::-1])
+            m.fit(db.from_sequence(rev, npartitions=2) if bag_mode else rev, yr)
+
+
 def _fit_list(case):
     np.random.seed(case["np_seed"] % (2 ** 32))
     m = _make(case)
     stats = _mk_stats(case)
+    _pre(case, m, stats, False)
     if case["kind"] == "ivector":
         m.fit(stats)
     else:
@@ -232,6 +268,7 @@ def _fit_list(case):
 def _fit_bag(case):
     m = _make(case)
     stats = _mk_stats(case)
+    _pre(case, m, stats, True)
     bag = _bag(case, stats)
     if case["kind"] == "ivector":
         m.fit(bag)
@@ -262,6 +299,7 @@ def run_case(case, replay=None):
     rec.probe("even_partition_count", npart % 2 == 0)
     rec.probe("unsorted_labels", case["y"] != sorted(case["y"]))
     rec.probe("mode_" + case["sched"]["mode"])
+    rec.probe("machine_used_before_" + str(case.get("pre")), case.get("pre") is not None)
 
     mem_exc = None
     try:
@@ -337,6 +375,8 @@ def shrink(case):
         yield dict(case, sched=dict(sc, workers=sc["workers"] - 1))
     if case["yform"] != "array":
         yield dict(case, yform="array")
+    if case.get("pre"):
+        yield dict(case, pre=None)
     cfg = case["cfg"]
     if cfg["it"] > 1:
         yield dict(case, cfg=dict(cfg, it=cfg["it"] - 1))
